@@ -10,7 +10,7 @@ import z3
 
 from pyvc import contract, prims
 from pyvc.contract import LoopSpec, Outcome, Spec
-from pyvc.engine import RaiseSig, Unsupported, as_z3_bool, bytes_num
+from pyvc.engine import ContractStale, RaiseSig, Unsupported, as_z3_bool, bytes_num
 from pyvc.ground import All
 from pyvc.values import (B, I, NONE, VBool, VBytes, VExc, VFunc, VInt, VNone, VOpaque, VRef, VStr,
                          VTuple, fresh_name)
@@ -156,7 +156,7 @@ class InvalidateCreating(ConnSpec):
         def inv(cc, fr):
             cur = fr.locals.get('$iter0')
             if cur is None:
-                return [('iterating', False)]
+                raise ContractStale('the loop contract expects the local(s) it names (iterating): the code has a different shape')
             cc.roles.array(cur.visited, 'oid') if hasattr(cur.visited, 'get_id') else None
             return self.effect(cc, cc.E, cur.visited)
         return {0: LoopSpec(inv=inv, havoc=hv, kinds={'o': lambda cc, fr: NONE})}
@@ -296,7 +296,7 @@ class AbortRegistered(ConnSpec):
         def inv(cc, fr):
             cur = fr.locals.get('$iter0')
             if cur is None:
-                return [('iterating', False)]
+                raise ContractStale('the loop contract expects the local(s) it names (iterating): the code has a different shape')
             w = world(cc)
             reg = cc.E.old[w.registered.id]
             return [('iterating-the-registered-list', z3.And(cur.arr0 == reg['arr'],
@@ -517,7 +517,7 @@ class TpcFinish(ConnSpec):
             cur = fr.locals.get('$iter1')
             tid = cc.ghost.get('committed_tid')
             if cur is None or tid is None:
-                return [('iterating-after-the-storage-finished', False)]
+                raise ContractStale('the loop contract expects the local(s) it names (iterating-after-the-storage-finished): the code has a different shape')
             t = bytes_num(cc, tid)
             mod0 = cc.E.old[w.modified.id]
             cr0 = cc.E.old[w.creating.id]
@@ -841,7 +841,7 @@ class Commit(ConnSpec):
             w = world(cc)
             cur = fr.locals.get('$iter0')
             if cur is None:
-                return [('iterating', False)]
+                raise ContractStale('the loop contract expects the local(s) it names (iterating): the code has a different shape')
             cc.roles.array(cur.visited, 'oid')
             return [('visited-oids-have-been-checked', All(['oid'], lambda o: z3.Implies(
                 sel(cur.visited, o), sel(w.checked, o)))),
@@ -899,7 +899,7 @@ class TpcVote(ConnSpec):
             cur = fr.locals.get('$iter0')
             r = cc.ghost.get('resolved')
             if cur is None or r is None:
-                return [('iterating-the-resolved-list', False)]
+                raise ContractStale('the loop contract expects the local(s) it names (iterating-the-resolved-list): the code has a different shape')
             ro = cc.obj(r).f
             first = cc.ghost['resolved_first']
             seen = lambda o: z3.And(sel(first, o) >= 0, sel(first, o) < cur.idx, sel(first, o) < ro['len'],
@@ -1135,7 +1135,7 @@ class CommitSavepointBody(ConnSpec):
             cur = fr.locals.get('$iter0')
             oids = fr.locals.get('oids')
             if cur is None or not isinstance(oids, VRef):
-                return [('iterating-the-sorted-oids', False)]
+                raise ContractStale('the loop contract expects the local(s) it names (iterating-the-sorted-oids): the code has a different shape')
             lo = cc.obj(oids).f
             return [('iterating-the-sorted-oids', z3.And(cur.arr0 == lo['arr'], cur.len0 == lo['len'])),
                     ('oids-visited-so-far-are-stored', All(['sidx'], lambda i: z3.Implies(
